@@ -328,13 +328,13 @@ def model(draw, flavour=None, max_blocks=10):
             # needs ROCKS in it and CONNE needs ELEME; sections are listed in canonical order; with an external
             # mesh file the mesh sections stay out of the list
             elig = [k for k in ('ROCKS', 'ELEME', 'CONNE', 'RPCAP', 'GENER') if k in present]
-            if mesh_mode != 'infile': elig = [k for k in elig if k not in ('ELEME', 'CONNE')]
-            if mesh_mode == 'infile' and (draw(B()) or not elig):
-                m['xp_sections'] = 'all'
+            if draw(B()) or not elig:
+                m['xp_sections'] = 'all'      # also with the mesh in a side file: the companion file then holds ELEME/CONNE too
             else:
                 pick = set(draw(st.lists(SF(elig), min_size=1, unique=True))) if elig else set()
                 if 'CONNE' in pick: pick.add('ELEME')
                 if 'ELEME' in pick: pick.add('ROCKS')
+                if 'ELEME' in pick and mesh_mode != 'infile': pick.add('CONNE')   # a side mesh file is only read when the companion file gave no blocks
                 pick = [k for k in ('ROCKS', 'ELEME', 'CONNE', 'RPCAP', 'GENER') if k in pick and k in present]
                 if pick: m['xp_sections'] = pick
                 else: m['xp'] = 'off'
